@@ -111,6 +111,59 @@ view_t vf_snap; unsigned char *vf_snap_sz; int *vf_snap_el;
 #define SAME_BYTES(P, s, s0) (P##_SZ(s) == P##_SZ(s0) && P##_EL(s, 0) == P##_EL(s0, 0) && P##_EL(s, 1) == P##_EL(s0, 1) && P##_EL(s, 2) == P##_EL(s0, 2) && P##_EL(s, N - 1) == P##_EL(s0, N - 1))
 _Static_assert(N == 4, "SAME_BYTES enumerates the slots of capacity 4");
 
+/* case-split cells (split=SW:.. / split=SC:..): the engine defines the cell value; all cells together cover the whole input domain */
+#ifdef SW
+#define CELL_W(x) (x) = SW /* assignment, not assumption: lets symbolic execution propagate the constant */
+#else
+#define CELL_W(x) ((void)0)
+#endif
+#ifdef SC
+#define CELL_C(x) (x) = SC
+#else
+#define CELL_C(x) ((void)0)
+#endif
+/* insert(first,last): cells over (range length c, set size n) with n + c <= N; cell 0 is c == 0 with any n */
+#ifdef SX
+#if SX == 0
+#define SX_C 0
+#define SX_N -1
+#elif SX == 1
+#define SX_C 1
+#define SX_N 0
+#elif SX == 2
+#define SX_C 1
+#define SX_N 1
+#elif SX == 3
+#define SX_C 1
+#define SX_N 2
+#elif SX == 4
+#define SX_C 1
+#define SX_N 3
+#elif SX == 5
+#define SX_C 2
+#define SX_N 0
+#elif SX == 6
+#define SX_C 2
+#define SX_N 1
+#elif SX == 7
+#define SX_C 2
+#define SX_N 2
+#elif SX == 8
+#define SX_C 3
+#define SX_N 0
+#elif SX == 9
+#define SX_C 3
+#define SX_N 1
+#elif SX == 10
+#define SX_C 4
+#define SX_N 0
+#else
+#error "SX out of range"
+#endif
+#define CELL_X(P, s, c) (c) = SX_C; if (SX_N >= 0) P##_SZ(s) = SX_N
+#else
+#define CELL_X(P, s, c) ((void)0)
+#endif
 /* =================================================================== templates ===================================== */
 /* lookups with a key of the key type: the answers of a linear scan under the same comparator; nothing is modified */
 #define H_LOOKUP(P, C, KNOWN) void h_##P##_lookup(void) { ARB(P, C, s, o); VF_INPUT(int, k); P##_t s0 = s; int *b = BASE(P, s); \
@@ -156,14 +209,12 @@ _Static_assert(N == 4, "SAME_BYTES enumerates the slots of capacity 4");
 /* insert / emplace of one key into a set that has room for it (or already holds it).  CALLS: which -> (inserted, it) */
 #define INSERT_POST(P, C) NOW(P, s, w); view_t e = sp_insert(o, C, k); _Bool was = v_member(o, C, k); \
   VF_ASSERT(v_wf(w, C), "insert keeps the set sorted and unique"); \
-  VF_ASSERT(v_eq(w, e), "insert(k): unchanged when an equivalent key is present, otherwise k is added at its sorted position and nothing else moves"); \
-  VF_ASSERT(v_member(w, C, g) == (v_member(o, C, g) || equiv(C, g, k)), "insert(k): member'(g) == member(g) || g equivalent to k, for every key g"); \
-  VF_ASSERT(w.n == o.n + (was ? 0 : 1), "insert(k): size grows by one iff k was absent")
-#define H_INSERT_SS(P, C, KNOWN) void h_##P##_insert(void) { ARB(P, C, s, o); VF_INPUT(int, k); VF_INPUT(int, g); VF_INPUT(unsigned char, which); __CPROVER_assume(o.n < N || v_member(o, C, k)); \
+  VF_ASSERT(v_eq(w, e), "insert(k): unchanged when an equivalent key is present, otherwise k is added at its sorted position and nothing else moves (== reference insertion; membership and size laws of the reference: group lemma_insert)")
+#define H_INSERT_SS(P, C, KNOWN) void h_##P##_insert(void) { ARB(P, C, s, o); VF_INPUT(int, k); VF_INPUT(unsigned char, which); CELL_W(which); __CPROVER_assume(which <= 2); __CPROVER_assume(o.n < N || v_member(o, C, k)); \
   int *it = 0; _Bool ins = which == 0 ? P##_insert(&s, &k, &it) : (which == 1 ? P##_insert_rv(&s, k, &it) : P##_emplace(&s, k, &it)); \
   INSERT_POST(P, C); VF_ASSERT(ins == !was, "insert(k).second: true iff k was absent"); \
   KNOWN; VF_ASSERT(it == BASE(P, s) + v_find(e, C, k), "insert(k).first: iterator to the element equivalent to k (the new one or the one that prevented the insertion)"); VF_REACH(); }
-#define H_INSERT_FS(P, C) void h_##P##_insert(void) { ARB(P, C, s, o); VF_INPUT(int, k); VF_INPUT(int, g); VF_INPUT(unsigned char, which); VF_INPUT(unsigned char, hint); __CPROVER_assume((o.n < N || v_member(o, C, k)) && hint <= o.n); \
+#define H_INSERT_FS(P, C) void h_##P##_insert(void) { ARB(P, C, s, o); VF_INPUT(int, k); VF_INPUT(unsigned char, which); VF_INPUT(unsigned char, hint); CELL_W(which); __CPROVER_assume(which <= 5); __CPROVER_assume((o.n < N || v_member(o, C, k)) && hint <= o.n); \
   int *it = 0; _Bool ins = !v_member(o, C, k); const int *h = BASE(P, s) + hint; \
   switch (which) { case 0: ins = P##_insert(&s, &k, &it); break; case 1: ins = P##_insert_rv(&s, k, &it); break; case 2: ins = P##_emplace(&s, k, &it); break; \
     case 3: it = P##_insert_hint(&s, h, &k); break; case 4: it = P##_insert_hint_rv(&s, h, k); break; default: it = P##_emplace_hint(&s, h, k); break; } \
@@ -180,13 +231,11 @@ _Static_assert(N == 4, "SAME_BYTES enumerates the slots of capacity 4");
   VF_NORETURN_EXPECTED(); }
 
 /* insert(first,last) and construction from a range: a fold of single insertions; the room suffices for the whole range */
-#define RANGE_SPEC(C) view_t e = o; for (int i = 0; i < N; ++i) if (i < c) e = sp_insert(e, C, src_in[i]); \
-  _Bool gin = 0; for (int i = 0; i < N; ++i) if (i < c && equiv(C, src_in[i], g)) gin = 1
-#define RANGE_POST(C, what) VF_ASSERT(v_wf(w, C), what ": result is sorted and unique"); VF_ASSERT(v_eq(w, e), what ": the fold of single insertions in range order"); \
-  VF_ASSERT(v_member(w, C, g) == (v_member(o, C, g) || gin), what ": member'(g) == member(g) || g equivalent to a range element")
-#define H_INSERT_RANGE(P, C) void h_##P##_insert_range(void) { ARB(P, C, s, o); VF_INPUT(int, g); VF_INPUT(unsigned char, c); __CPROVER_assume(c <= N && o.n + c <= N); VF_BUF(int, src, c, N); \
+#define RANGE_SPEC(C) view_t e = o; for (int i = 0; i < N; ++i) if (i < c) e = sp_insert(e, C, src_in[i])
+#define RANGE_POST(C, what) VF_ASSERT(v_wf(w, C), what ": result is sorted and unique"); VF_ASSERT(v_eq(w, e), what ": the fold of single (reference) insertions in range order; membership law of the fold: group lemma_insert_range")
+#define H_INSERT_RANGE(P, C) void h_##P##_insert_range(void) { VF_INPUT(P##_t, s); VF_INPUT(unsigned char, c); CELL_X(P, s, c); view_t o; VIEW(o, P##_SZ, P##_EL, s); __CPROVER_assume(v_wf(o, C)); __CPROVER_assume(c <= N && o.n + c <= N); VF_BUF(int, src, c, N); \
   P##_insert_range(&s, src, src + c); NOW(P, s, w); RANGE_SPEC(C); RANGE_POST(C, "insert(first,last)"); VF_REACH(); }
-#define H_CTOR_RANGE(P, C) void h_##P##_ctor_range(void) { VF_INPUT(P##_t, s); VF_INPUT(int, g); VF_INPUT(unsigned char, c); __CPROVER_assume(c <= N); VF_BUF(int, src, c, N); view_t o; o.n = 0; for (int i = 0; i <= N; ++i) o.a[i] = 0; \
+#define H_CTOR_RANGE(P, C) void h_##P##_ctor_range(void) { VF_INPUT(P##_t, s); VF_INPUT(unsigned char, c); CELL_C(c); __CPROVER_assume(c <= N); VF_BUF(int, src, c, N); view_t o; o.n = 0; for (int i = 0; i <= N; ++i) o.a[i] = 0; \
   P##_ctor_range(&s, src, src + c); NOW(P, s, w); RANGE_SPEC(C); RANGE_POST(C, "set(first,last)"); VF_REACH(); }
 #define H_DEFAULT(P, C) void h_##P##_default(void) { VF_INPUT(P##_t, s); /* indeterminate storage */ P##_default(&s); VF_ASSERT(P##_SZ(s) == 0 && P##_size(&s) == 0 && P##_empty(&s) && P##_begin(&s) == P##_end(&s), "default construction: the empty set"); VF_REACH(); }
 
@@ -255,10 +304,242 @@ _Static_assert(N == 4, "SAME_BYTES enumerates the slots of capacity 4");
   if (v_sorted(oc, C, 0)) { P##_ctor_sorted_equivalent(&t, &cn); NOW(P, t, wt); VF_ASSERT(v_eq(wt, oc), "flat_multiset(sorted_equivalent, container): adopts the sorted container as it is"); } \
   P##_default(&d); VF_ASSERT(P##_SZ(d) == 0 && P##_empty(&d), "default construction: the empty multiset"); VF_REACH(); }
 
+/* laws of the reference insertion itself (no library code): together with "view' == reference view" above they give, for every key g,
+ * member'(g) == member(g) || g equivalent to k, size' == size + (k absent), and sortedness/uniqueness of the result */
+#define H_LEMMA_INSERT(NAME, C) void h_##NAME(void) { VF_INPUT(view_t, o); VF_INPUT(int, k); VF_INPUT(int, g); __CPROVER_assume(v_wf(o, C) && (o.n < N || v_member(o, C, k))); view_t e = sp_insert(o, C, k); \
+  VF_ASSERT(v_wf(e, C), "reference insert keeps the view sorted and unique"); \
+  VF_ASSERT(v_member(e, C, g) == (v_member(o, C, g) || equiv(C, g, k)), "insert(k): member'(g) == member(g) || g equivalent to k, for every key g"); \
+  VF_ASSERT(e.n == o.n + (v_member(o, C, k) ? 0 : 1), "insert(k): size grows by one iff k was absent"); \
+  VF_ASSERT(v_member(e, C, k) && v_find(e, C, k) < e.n && equiv(C, e.a[v_find(e, C, k)], k), "insert(k): k is a member afterwards and find locates it"); VF_REACH(); }
+#define H_LEMMA_INSERT_RANGE(NAME, C) void h_##NAME(void) { VF_INPUT(view_t, o); VF_INPUT(int, g); VF_INPUT(unsigned char, c); VF_INPUT_ARR(int, src_in, N + 1); __CPROVER_assume(v_wf(o, C) && c <= N && o.n + c <= N); \
+  RANGE_SPEC(C); _Bool gin = 0; for (int i = 0; i < N; ++i) if (i < c && equiv(C, src_in[i], g)) gin = 1; \
+  VF_ASSERT(v_wf(e, C), "fold of reference insertions keeps the view sorted and unique"); \
+  VF_ASSERT(v_member(e, C, g) == (v_member(o, C, g) || gin), "insert(first,last): member'(g) == member(g) || g equivalent to a range element, for every key g"); VF_REACH(); }
+
+/* =================================================================== lemmas ======================================== */
+/*@GROUP name=lemma_insert_lt props=C09 kind=K unwind=6 solver=kissat@*/
+H_LEMMA_INSERT(lemma_insert_lt, LT)
+/*@GROUP name=lemma_insert_gt props=C09 kind=K unwind=6 solver=kissat@*/
+H_LEMMA_INSERT(lemma_insert_gt, GT)
+/*@GROUP name=lemma_insert_range_lt props=C09 kind=K unwind=6 solver=kissat@*/
+H_LEMMA_INSERT_RANGE(lemma_insert_range_lt, LT)
+/*@GROUP name=lemma_insert_range_gt props=C09 kind=K unwind=6 solver=kissat@*/
+H_LEMMA_INSERT_RANGE(lemma_insert_range_gt, GT)
 /* =================================================================== static_set ==================================== */
-/*@GROUP name=ss_lookup props=C09,C02 kind=K unwind=6@*/
+/*@GROUP name=ss_lookup props=C09,C02 kind=K unwind=6 solver=kissat@*/
 H_LOOKUP(ss, LT, (void)0)
-/*@GROUP name=ss_observe props=C09,C02 kind=K unwind=6@*/
+/*@GROUP name=ss_observe props=C09,C02 kind=K unwind=6 solver=kissat@*/
 H_OBSERVE_SS(ss, LT)
-/*@GROUP name=ss_insert props=C09,C02 kind=K unwind=6@*/
-H_INSERT_SS(ss, LT, (void)0)
+/*@GROUP name=ss_default props=C09,C02 kind=K unwind=6 solver=kissat@*/
+H_DEFAULT(ss, LT)
+/*@GROUP name=ss_insert props=C09,C02 kind=K unwind=6 solver=kissat split=SW:0:2 unwindset=_ZN3etl6rotateIPiEET_S2_S2_S2_.0:2@*/
+H_INSERT_SS(ss, LT, VF_KNOWN(C09_ss_insert_dup_null, v_member(o, LT, k)); VF_KNOWN(C09_ss_insert_back_end, !v_member(o, LT, k) && v_ub(o, LT, k) == o.n))
+/*@GROUP name=ss_insert_full props=C09,C02 kind=K unwind=6 solver=kissat@*/
+H_INSERT_FULL_SS(ss, LT)
+/*@GROUP name=ss_insert_range props=C09,C02 kind=K unwind=6 solver=kissat split=SX:0:10 unwindset=_ZN3etl6rotateIPiEET_S2_S2_S2_.0:2@*/
+H_INSERT_RANGE(ss, LT)
+/*@GROUP name=ss_ctor_range props=C09,C02 kind=K unwind=6 solver=kissat split=SC:0:4 unwindset=_ZN3etl6rotateIPiEET_S2_S2_S2_.0:2@*/
+H_CTOR_RANGE(ss, LT)
+/*@GROUP name=ss_erase_key props=C09,C02 kind=K unwind=6 solver=kissat@*/
+H_ERASE_KEY(ss, LT, VF_KNOWN(C09_ss_erase_key_absent, !v_member(o, LT, k) && v_some_greater(o, k)))
+/*@GROUP name=ss_erase_it props=C09,C02 kind=K unwind=6 solver=kissat@*/
+H_ERASE_IT_SS(ss, LT)
+/*@GROUP name=ss_erase_range props=C09,C02 kind=K unwind=6 solver=kissat@*/
+H_ERASE_RANGE(ss, LT, VF_KNOWN(C09_ss_erase_range_skip, l - f >= 2))
+/*@GROUP name=ss_whole props=C09,C02 kind=K unwind=6 solver=kissat@*/
+H_WHOLE(ss, LT)
+/*@GROUP name=ss_relational props=C09,C02 kind=K unwind=6 solver=kissat@*/
+H_RELATIONAL(ss, LT)
+/*@GROUP name=ssg_lookup props=C09,C02 kind=K unwind=6 solver=kissat@*/
+H_LOOKUP(ssg, GT, (void)0)
+/*@GROUP name=ssg_observe props=C09,C02 kind=K unwind=6 solver=kissat@*/
+H_OBSERVE_SS(ssg, GT)
+/*@GROUP name=ssg_default props=C09,C02 kind=K unwind=6 solver=kissat@*/
+H_DEFAULT(ssg, GT)
+/*@GROUP name=ssg_insert props=C09,C02 kind=K unwind=6 solver=kissat split=SW:0:2 unwindset=_ZN3etl6rotateIPiEET_S2_S2_S2_.0:2@*/
+H_INSERT_SS(ssg, GT, VF_KNOWN(C09_ss_insert_dup_null, v_member(o, GT, k)); VF_KNOWN(C09_ss_insert_back_end, !v_member(o, GT, k) && v_ub(o, GT, k) == o.n))
+/*@GROUP name=ssg_insert_full props=C09,C02 kind=K unwind=6 solver=kissat@*/
+H_INSERT_FULL_SS(ssg, GT)
+/*@GROUP name=ssg_insert_range props=C09,C02 kind=K unwind=6 solver=kissat split=SX:0:10 unwindset=_ZN3etl6rotateIPiEET_S2_S2_S2_.0:2 tier=thorough@*/
+H_INSERT_RANGE(ssg, GT)
+/*@GROUP name=ssg_ctor_range props=C09,C02 kind=K unwind=6 solver=kissat split=SC:0:4 unwindset=_ZN3etl6rotateIPiEET_S2_S2_S2_.0:2 tier=thorough@*/
+H_CTOR_RANGE(ssg, GT)
+/*@GROUP name=ssg_erase_key props=C09,C02 kind=K unwind=6 solver=kissat@*/
+H_ERASE_KEY(ssg, GT, VF_KNOWN(C09_ss_erase_key_absent, !v_member(o, GT, k) && v_some_greater(o, k)); VF_KNOWN(C09_ss_erase_key_compare, v_member(o, GT, k) && o.n >= 2))
+/*@GROUP name=ssg_erase_it props=C09,C02 kind=K unwind=6 solver=kissat@*/
+H_ERASE_IT_SS(ssg, GT)
+/*@GROUP name=ssg_erase_range props=C09,C02 kind=K unwind=6 solver=kissat@*/
+H_ERASE_RANGE(ssg, GT, VF_KNOWN(C09_ss_erase_range_skip, l - f >= 2))
+/*@GROUP name=ssg_whole props=C09,C02 kind=K unwind=6 solver=kissat@*/
+H_WHOLE(ssg, GT)
+/*@GROUP name=ssg_relational props=C09,C02 kind=K unwind=6 solver=kissat@*/
+H_RELATIONAL(ssg, GT)
+/*@GROUP name=sst_lookup props=C09,C02 kind=K unwind=6 solver=kissat@*/
+H_LOOKUP(sst, LT, (void)0)
+/*@GROUP name=sst_observe props=C09,C02 kind=K unwind=6 solver=kissat@*/
+H_OBSERVE_SS(sst, LT)
+/*@GROUP name=sst_default props=C09,C02 kind=K unwind=6 solver=kissat@*/
+H_DEFAULT(sst, LT)
+/*@GROUP name=sst_insert props=C09,C02 kind=K unwind=6 solver=kissat split=SW:0:2 unwindset=_ZN3etl6rotateIPiEET_S2_S2_S2_.0:2@*/
+H_INSERT_SS(sst, LT, VF_KNOWN(C09_ss_insert_dup_null, v_member(o, LT, k)); VF_KNOWN(C09_ss_insert_back_end, !v_member(o, LT, k) && v_ub(o, LT, k) == o.n))
+/*@GROUP name=sst_insert_full props=C09,C02 kind=K unwind=6 solver=kissat@*/
+H_INSERT_FULL_SS(sst, LT)
+/*@GROUP name=sst_insert_range props=C09,C02 kind=K unwind=6 solver=kissat split=SX:0:10 unwindset=_ZN3etl6rotateIPiEET_S2_S2_S2_.0:2 tier=thorough@*/
+H_INSERT_RANGE(sst, LT)
+/*@GROUP name=sst_ctor_range props=C09,C02 kind=K unwind=6 solver=kissat split=SC:0:4 unwindset=_ZN3etl6rotateIPiEET_S2_S2_S2_.0:2 tier=thorough@*/
+H_CTOR_RANGE(sst, LT)
+/*@GROUP name=sst_erase_key props=C09,C02 kind=K unwind=6 solver=kissat@*/
+H_ERASE_KEY(sst, LT, VF_KNOWN(C09_ss_erase_key_absent, !v_member(o, LT, k) && v_some_greater(o, k)))
+/*@GROUP name=sst_erase_it props=C09,C02 kind=K unwind=6 solver=kissat@*/
+H_ERASE_IT_SS(sst, LT)
+/*@GROUP name=sst_erase_range props=C09,C02 kind=K unwind=6 solver=kissat@*/
+H_ERASE_RANGE(sst, LT, VF_KNOWN(C09_ss_erase_range_skip, l - f >= 2))
+/*@GROUP name=sst_whole props=C09,C02 kind=K unwind=6 solver=kissat@*/
+H_WHOLE(sst, LT)
+/*@GROUP name=sst_relational props=C09,C02 kind=K unwind=6 solver=kissat@*/
+H_RELATIONAL(sst, LT)
+/*@GROUP name=sst_lookup_h props=C09,C02 kind=K unwind=6 solver=kissat@*/
+H_LOOKUP_H(sst, LT, VF_KNOWN(C09_ss_find_transparent, o.n > 0 && o.a[0] <= k))
+/* =================================================================== flat_set over static_vector ================== */
+/*@GROUP name=fs_lookup props=C09,C02 kind=K unwind=6 solver=kissat@*/
+H_LOOKUP(fs, LT, (void)0)
+/*@GROUP name=fs_equal_range props=C09,C02 kind=K unwind=6 solver=kissat@*/
+H_EQUAL_RANGE(fs, LT)
+/*@GROUP name=fs_observe props=C09,C02 kind=K unwind=6 solver=kissat@*/
+H_OBSERVE_FS(fs, LT)
+/*@GROUP name=fs_default props=C09,C02 kind=K unwind=6 solver=kissat@*/
+H_DEFAULT(fs, LT)
+/*@GROUP name=fs_insert props=C09,C02 kind=K unwind=6 solver=kissat split=SW:0:5 unwindset=_ZN3etl6rotateIPiEET_S2_S2_S2_.0:2@*/
+H_INSERT_FS(fs, LT)
+/*@GROUP name=fs_insert_full props=C09,C02,C05 kind=K unwind=6 solver=kissat@*/
+H_INSERT_FULL_FS(fs, LT)
+/*@GROUP name=fs_insert_range props=C09,C02 kind=K unwind=6 solver=kissat split=SX:0:10 unwindset=_ZN3etl6rotateIPiEET_S2_S2_S2_.0:2@*/
+H_INSERT_RANGE(fs, LT)
+/*@GROUP name=fs_ctor_range props=C09,C02 kind=K unwind=6 solver=kissat split=SC:0:4 unwindset=_ZN3etl6rotateIPiEET_S2_S2_S2_.0:2@*/
+H_CTOR_RANGE(fs, LT)
+/*@GROUP name=fs_ctor_cont props=C09,C02 kind=K unwind=6 solver=kissat@*/
+H_CTOR_CONT(fs, LT)
+/*@GROUP name=fs_ctor_sorted props=C09,C02 kind=K unwind=6 solver=kissat@*/
+H_CTOR_SORTED(fs, LT)
+/*@GROUP name=fs_ctor_sorted_range props=C09,C02 kind=K unwind=6 solver=kissat@*/
+H_CTOR_SORTED_RANGE(fs, LT)
+/*@GROUP name=fs_extract props=C09,C02 kind=K unwind=6 solver=kissat@*/
+H_EXTRACT(fs, LT, VF_KNOWN(C09_fs_extract_empty, o.n > 0))
+/*@GROUP name=fs_replace props=C09,C02 kind=K unwind=6 solver=kissat@*/
+H_REPLACE(fs, LT)
+/*@GROUP name=fs_erase_key props=C09,C02 kind=K unwind=6 solver=kissat@*/
+H_ERASE_KEY(fs, LT, (void)0)
+/*@GROUP name=fs_erase_it props=C09,C02 kind=K unwind=6 solver=kissat@*/
+H_ERASE_IT_FS(fs, LT)
+/*@GROUP name=fs_erase_range props=C09,C02 kind=K unwind=6 solver=kissat@*/
+H_ERASE_RANGE(fs, LT, (void)0)
+/*@GROUP name=fs_erase_if props=C09,C02 kind=K unwind=6 solver=kissat@*/
+H_ERASE_IF(fs, LT)
+/*@GROUP name=fs_whole props=C09,C02 kind=K unwind=6 solver=kissat@*/
+H_WHOLE(fs, LT)
+/*@GROUP name=fs_relational props=C09,C02 kind=K unwind=6 solver=kissat@*/
+H_RELATIONAL(fs, LT)
+/*@GROUP name=fsg_lookup props=C09,C02 kind=K unwind=6 solver=kissat@*/
+H_LOOKUP(fsg, GT, (void)0)
+/*@GROUP name=fsg_equal_range props=C09,C02 kind=K unwind=6 solver=kissat@*/
+H_EQUAL_RANGE(fsg, GT)
+/*@GROUP name=fsg_observe props=C09,C02 kind=K unwind=6 solver=kissat@*/
+H_OBSERVE_FS(fsg, GT)
+/*@GROUP name=fsg_default props=C09,C02 kind=K unwind=6 solver=kissat@*/
+H_DEFAULT(fsg, GT)
+/*@GROUP name=fsg_insert props=C09,C02 kind=K unwind=6 solver=kissat split=SW:0:5 unwindset=_ZN3etl6rotateIPiEET_S2_S2_S2_.0:2@*/
+H_INSERT_FS(fsg, GT)
+/*@GROUP name=fsg_insert_full props=C09,C02,C05 kind=K unwind=6 solver=kissat@*/
+H_INSERT_FULL_FS(fsg, GT)
+/*@GROUP name=fsg_insert_range props=C09,C02 kind=K unwind=6 solver=kissat split=SX:0:10 unwindset=_ZN3etl6rotateIPiEET_S2_S2_S2_.0:2 tier=thorough@*/
+H_INSERT_RANGE(fsg, GT)
+/*@GROUP name=fsg_ctor_range props=C09,C02 kind=K unwind=6 solver=kissat split=SC:0:4 unwindset=_ZN3etl6rotateIPiEET_S2_S2_S2_.0:2 tier=thorough@*/
+H_CTOR_RANGE(fsg, GT)
+/*@GROUP name=fsg_ctor_cont props=C09,C02 kind=K unwind=6 solver=kissat@*/
+H_CTOR_CONT(fsg, GT)
+/*@GROUP name=fsg_ctor_sorted props=C09,C02 kind=K unwind=6 solver=kissat@*/
+H_CTOR_SORTED(fsg, GT)
+/*@GROUP name=fsg_ctor_sorted_range props=C09,C02 kind=K unwind=6 solver=kissat@*/
+H_CTOR_SORTED_RANGE(fsg, GT)
+/*@GROUP name=fsg_extract props=C09,C02 kind=K unwind=6 solver=kissat@*/
+H_EXTRACT(fsg, GT, VF_KNOWN(C09_fs_extract_empty, o.n > 0))
+/*@GROUP name=fsg_replace props=C09,C02 kind=K unwind=6 solver=kissat@*/
+H_REPLACE(fsg, GT)
+/*@GROUP name=fsg_erase_key props=C09,C02 kind=K unwind=6 solver=kissat@*/
+H_ERASE_KEY(fsg, GT, (void)0)
+/*@GROUP name=fsg_erase_it props=C09,C02 kind=K unwind=6 solver=kissat@*/
+H_ERASE_IT_FS(fsg, GT)
+/*@GROUP name=fsg_erase_range props=C09,C02 kind=K unwind=6 solver=kissat@*/
+H_ERASE_RANGE(fsg, GT, (void)0)
+/*@GROUP name=fsg_erase_if props=C09,C02 kind=K unwind=6 solver=kissat@*/
+H_ERASE_IF(fsg, GT)
+/*@GROUP name=fsg_whole props=C09,C02 kind=K unwind=6 solver=kissat@*/
+H_WHOLE(fsg, GT)
+/*@GROUP name=fsg_relational props=C09,C02 kind=K unwind=6 solver=kissat@*/
+H_RELATIONAL(fsg, GT)
+/*@GROUP name=fst_lookup props=C09,C02 kind=K unwind=6 solver=kissat@*/
+H_LOOKUP(fst, LT, (void)0)
+/*@GROUP name=fst_equal_range props=C09,C02 kind=K unwind=6 solver=kissat@*/
+H_EQUAL_RANGE(fst, LT)
+/*@GROUP name=fst_observe props=C09,C02 kind=K unwind=6 solver=kissat@*/
+H_OBSERVE_FS(fst, LT)
+/*@GROUP name=fst_default props=C09,C02 kind=K unwind=6 solver=kissat@*/
+H_DEFAULT(fst, LT)
+/*@GROUP name=fst_insert props=C09,C02 kind=K unwind=6 solver=kissat split=SW:0:5 unwindset=_ZN3etl6rotateIPiEET_S2_S2_S2_.0:2@*/
+H_INSERT_FS(fst, LT)
+/*@GROUP name=fst_insert_full props=C09,C02,C05 kind=K unwind=6 solver=kissat@*/
+H_INSERT_FULL_FS(fst, LT)
+/*@GROUP name=fst_insert_range props=C09,C02 kind=K unwind=6 solver=kissat split=SX:0:10 unwindset=_ZN3etl6rotateIPiEET_S2_S2_S2_.0:2 tier=thorough@*/
+H_INSERT_RANGE(fst, LT)
+/*@GROUP name=fst_ctor_range props=C09,C02 kind=K unwind=6 solver=kissat split=SC:0:4 unwindset=_ZN3etl6rotateIPiEET_S2_S2_S2_.0:2 tier=thorough@*/
+H_CTOR_RANGE(fst, LT)
+/*@GROUP name=fst_ctor_cont props=C09,C02 kind=K unwind=6 solver=kissat@*/
+H_CTOR_CONT(fst, LT)
+/*@GROUP name=fst_ctor_sorted props=C09,C02 kind=K unwind=6 solver=kissat@*/
+H_CTOR_SORTED(fst, LT)
+/*@GROUP name=fst_ctor_sorted_range props=C09,C02 kind=K unwind=6 solver=kissat@*/
+H_CTOR_SORTED_RANGE(fst, LT)
+/*@GROUP name=fst_extract props=C09,C02 kind=K unwind=6 solver=kissat@*/
+H_EXTRACT(fst, LT, VF_KNOWN(C09_fs_extract_empty, o.n > 0))
+/*@GROUP name=fst_replace props=C09,C02 kind=K unwind=6 solver=kissat@*/
+H_REPLACE(fst, LT)
+/*@GROUP name=fst_erase_key props=C09,C02 kind=K unwind=6 solver=kissat@*/
+H_ERASE_KEY(fst, LT, (void)0)
+/*@GROUP name=fst_erase_it props=C09,C02 kind=K unwind=6 solver=kissat@*/
+H_ERASE_IT_FS(fst, LT)
+/*@GROUP name=fst_erase_range props=C09,C02 kind=K unwind=6 solver=kissat@*/
+H_ERASE_RANGE(fst, LT, (void)0)
+/*@GROUP name=fst_erase_if props=C09,C02 kind=K unwind=6 solver=kissat@*/
+H_ERASE_IF(fst, LT)
+/*@GROUP name=fst_whole props=C09,C02 kind=K unwind=6 solver=kissat@*/
+H_WHOLE(fst, LT)
+/*@GROUP name=fst_relational props=C09,C02 kind=K unwind=6 solver=kissat@*/
+H_RELATIONAL(fst, LT)
+/*@GROUP name=fst_lookup_h props=C09,C02 kind=K unwind=6 solver=kissat@*/
+H_LOOKUP_H(fst, LT, (void)0)
+/*@GROUP name=fst_equal_range_h props=C09,C02 kind=K unwind=6 solver=kissat@*/
+H_EQUAL_RANGE_H(fst, LT)
+/* =================================================================== flat_set over inplace_vector (no modifiers: inplace_vector has no emplace(pos)/erase/assignment) */
+/*@GROUP name=fsi_lookup props=C09,C02 kind=K unwind=6 solver=kissat@*/
+H_LOOKUP(fsi, LT, (void)0)
+/*@GROUP name=fsi_equal_range props=C09,C02 kind=K unwind=6 solver=kissat@*/
+H_EQUAL_RANGE(fsi, LT)
+/*@GROUP name=fsi_observe props=C09,C02 kind=K unwind=6 solver=kissat@*/
+H_OBSERVE_FSI(fsi, LT)
+/*@GROUP name=fsi_default props=C09,C02 kind=K unwind=6 solver=kissat@*/
+H_DEFAULT(fsi, LT)
+/*@GROUP name=fsi_ctor_sorted props=C09,C02 kind=K unwind=6 solver=kissat@*/
+H_CTOR_SORTED(fsi, LT)
+/*@GROUP name=fsi_extract props=C09,C02 kind=K unwind=6 solver=kissat@*/
+H_EXTRACT(fsi, LT, VF_KNOWN(C09_fs_extract_empty, o.n > 0))
+/*@GROUP name=fsi_clear props=C09,C02 kind=K unwind=6 solver=kissat@*/
+H_CLEAR(fsi, LT)
+/*@GROUP name=fsi_relational props=C09,C02 kind=K unwind=6 solver=kissat@*/
+H_RELATIONAL(fsi, LT)
+/* =================================================================== flat_multiset ================================= */
+/*@GROUP name=fm_ctor props=C09,C02 kind=K unwind=20 solver=kissat@*/
+H_MULTI(fm, LT, 0)
+/*@GROUP name=fmg_ctor props=C09,C02 kind=K unwind=20 solver=kissat@*/
+H_MULTI(fmg, GT, 0)
+/*@GROUP name=fmi_ctor props=C09,C02 kind=K unwind=20 solver=kissat@*/
+H_MULTI(fmi, LT, 0)
